@@ -141,7 +141,8 @@ func ParseTagValue(tagValue *modelv1.TagValue) (TagValue, error) {
 		}
 		return *fv, nil
 	case *modelv1.TagValue_IntArray:
-		var fv *TagValue
+		// Not nil: an empty array appends nothing and fv is dereferenced below.
+		fv := &TagValue{}
 		for _, i := range x.IntArray.GetValue() {
 			fv = appendValue(fv, convert.Int64ToBytes(i))
 		}
